@@ -53,3 +53,11 @@ impl DSU {
         self.sz[v]
     }
 }
+
+#[cfg(feature = "verif")]
+impl DSU {
+    /// Read-only view of the parent and size arrays (verification harness only).
+    pub fn verif_raw(&self) -> (&[usize], &[usize]) {
+        (&self.p, &self.sz)
+    }
+}
